@@ -9,9 +9,9 @@ Import ListNotations.
 
 (* A pending close action disables the tail call. *)
 Theorem C10_tailcall_disabled_with_pending_close :
-  forall cx n tl fb body c n',
+  forall cx n tl fb ec body c n',
     0 < top_height cx ->
-    compile_stats cx n tl fb (BRet (RCall body)) = Some (c, n') ->
+    compile_stats cx n tl fb ec (BRet (RCall body)) = Some (c, n') ->
     exists c', compile_fun body = Some c' /\ c = [ICall c'; IRet].
 Proof. exact tailcall_disabled_with_pending_close. Qed.
 Print Assumptions C10_tailcall_disabled_with_pending_close.
